@@ -13,7 +13,7 @@ for p in $(seq 1 $procs); do
   ( VERIF_SCEN=$sc VERIF_SEEDS=${START:-1000}:$n:1 GOMAXPROCS=$gm $bin -test.cpu 1 -test.timeout 1h -test.run TestWorker 2>/dev/null | grep '^@@RES' | python3 -c "
 import sys,json
 for l in sys.stdin:
-    r=json.loads(l[6:]); print(r["seed"], r["trace"], len(r.get("violations") or []))" > $tmp/$p.txt ) &
+    r=json.loads(l[6:]); print(r.get('seed'), r.get('trace'), len(r.get('violations') or []))" > $tmp/$p.txt ) &
 done
 wait
 bad=0
